@@ -177,3 +177,19 @@ def finish(ctx, t0, seed, replay_only=None):
     print("property=%s tier=%s obligations=%d discharged=%d known=%d violations=%d functions=%d wall=%.2fs" % (
         ctx.prop, ctx.tier, n_ob, n_ok, len(known_hits), len(violations), len(ctx.functions), wall))
     return 1 if violations else 0
+
+
+def reuse(ctx, module, rule_prefixes, new_rule):
+    """Run another property's module on the same program and adopt the obligations of the named rules under
+    `new_rule` (shared clauses, e.g. C04.c = C03.a/b). Keys keep the original rule id so the instance stays diagnosable."""
+    sub = Ctx(ctx.prop, ctx.prog, ctx.tier, ctx.meta)
+    module.check(sub)
+    n = 0
+    for o in sub.obligations:
+        if any(o["rule"] == p or o["rule"].startswith(p + ".") or o["rule"].startswith(p) for p in rule_prefixes):
+            ctx._rec(new_rule, o["key"], o["where"], o["detail"], o["ok"], o["path"])
+            # _rec prefixes the rule again; keep the original key text
+            ctx.obligations[-1]["key"] = "%s<=%s" % (new_rule, o["key"])
+            n += 1
+    ctx.functions |= sub.functions
+    return n
